@@ -2,6 +2,9 @@
 //! No judgement happens here; sorting is only for stable output.
 use crate::user::VU;
 use crate::{E, T};
+use proto_vulcan::engine::Engine;
+use proto_vulcan::lterm::LTerm;
+use proto_vulcan::user::User;
 use proto_vulcan::compound::CompoundObject;
 use proto_vulcan::lresult::LResult;
 use proto_vulcan::lterm::LTermInner;
@@ -25,13 +28,20 @@ use std::rc::Rc;
 
 /// raw VarID -> variable number of the case
 #[derive(Clone)]
-pub struct Names(Rc<RefCell<HashMap<u64, i64>>>);
+pub struct Names(Rc<RefCell<HashMap<u64, i64>>>, bool);
 
 impl Names {
     pub fn new() -> Names {
-        Names(Rc::new(RefCell::new(HashMap::new())))
+        Names(Rc::new(RefCell::new(HashMap::new())), false)
     }
-    pub fn register(&self, t: &T, id: i64) {
+    /// registry for surface programs: unknown variables are identified by their source name
+    pub fn by_source_name() -> Names {
+        Names(Rc::new(RefCell::new(HashMap::new())), true)
+    }
+    pub fn by_name(&self) -> bool {
+        self.1
+    }
+    pub fn register<U: User, X: Engine<U>>(&self, t: &LTerm<U, X>, id: i64) {
         if let Some(raw) = raw_id(t) {
             self.0.borrow_mut().insert(raw, id);
         }
@@ -41,7 +51,7 @@ impl Names {
     }
 }
 
-pub fn raw_id(t: &T) -> Option<u64> {
+pub fn raw_id<U: User, X: Engine<U>>(t: &LTerm<U, X>) -> Option<u64> {
     match t.as_ref() {
         LTermInner::Var(uid, _) => format!("{}", uid).parse::<u64>().ok(),
         _ => None,
@@ -57,7 +67,7 @@ pub fn value_json(v: &LValue) -> Value {
     }
 }
 
-fn children_json(obj: &dyn CompoundObject<VU, E>, names: &Names) -> Vec<Value> {
+fn children_json<U: User, X: Engine<U>>(obj: &dyn CompoundObject<U, X>, names: &Names) -> Vec<Value> {
     obj.children()
         .map(|c| match c.as_term() {
             Some(t) => term_json(t, names),
@@ -66,7 +76,7 @@ fn children_json(obj: &dyn CompoundObject<VU, E>, names: &Names) -> Vec<Value> {
         .collect()
 }
 
-fn type_name(obj: &dyn CompoundObject<VU, E>) -> String {
+fn type_name<U: User, X: Engine<U>>(obj: &dyn CompoundObject<U, X>) -> String {
     let n = obj.type_name();
     if n.is_empty() {
         "Tuple".to_string()
@@ -75,7 +85,7 @@ fn type_name(obj: &dyn CompoundObject<VU, E>) -> String {
     }
 }
 
-pub fn term_json(t: &T, names: &Names) -> Value {
+pub fn term_json<U: User, X: Engine<U>>(t: &LTerm<U, X>, names: &Names) -> Value {
     match t.as_ref() {
         LTermInner::Val(v) => value_json(v),
         LTermInner::Var(_, name) => {
@@ -86,7 +96,12 @@ pub fn term_json(t: &T, names: &Names) -> Value {
                     if *name == "_" {
                         json!(["any", raw])
                     } else {
-                        json!(["uvar", raw])
+                        // surface programs: a variable the registry does not know is shown by its
+                        // source name vN (diagnostics only; such a variable is not reified)
+                        match name.strip_prefix('v').and_then(|n| n.parse::<i64>().ok()) {
+                            Some(n) if names.by_name() => json!(["var", n]),
+                            _ => json!(["uvar", raw]),
+                        }
                     }
                 }
             }
@@ -108,9 +123,9 @@ fn sorted(mut v: Vec<Value>) -> Vec<Value> {
     v
 }
 
-pub fn constraint_json(c: &Rc<dyn Constraint<VU, E>>, names: &Names) -> Value {
+pub fn constraint_json<U: User, X: Engine<U>>(c: &Rc<dyn Constraint<U, X>>, names: &Names) -> Value {
     let ops: Vec<Value> = || -> Vec<Value> { c.operands().iter().map(|t| term_json(t, names)).collect() }();
-    if let Some(d) = c.downcast_ref::<DisequalityConstraint<VU, E>>() {
+    if let Some(d) = c.downcast_ref::<DisequalityConstraint<U, X>>() {
         let pairs: Vec<Value> = d
             .smap_ref()
             .iter()
@@ -118,23 +133,23 @@ pub fn constraint_json(c: &Rc<dyn Constraint<VU, E>>, names: &Names) -> Value {
             .collect();
         return json!(["neq", sorted(pairs)]);
     }
-    let tag = if c.is::<LessThanOrEqualFdConstraint<VU, E>>() {
+    let tag = if c.is::<LessThanOrEqualFdConstraint<U, X>>() {
         "ltefd"
-    } else if c.is::<PlusFdConstraint<VU, E>>() {
+    } else if c.is::<PlusFdConstraint<U, X>>() {
         "plusfd"
-    } else if c.is::<MinusFdConstraint<VU, E>>() {
+    } else if c.is::<MinusFdConstraint<U, X>>() {
         "minusfd"
-    } else if c.is::<TimesFdConstraint<VU, E>>() {
+    } else if c.is::<TimesFdConstraint<U, X>>() {
         "timesfd"
-    } else if c.is::<DiseqFdConstraint<VU, E>>() {
+    } else if c.is::<DiseqFdConstraint<U, X>>() {
         "neqfd"
-    } else if c.is::<DistinctFdConstraint<VU, E>>() {
+    } else if c.is::<DistinctFdConstraint<U, X>>() {
         "distinct"
-    } else if c.is::<DistinctFd2Constraint<VU, E>>() {
+    } else if c.is::<DistinctFd2Constraint<U, X>>() {
         "distinct2"
-    } else if c.is::<PlusZConstraint<VU, E>>() {
+    } else if c.is::<PlusZConstraint<U, X>>() {
         "plusz"
-    } else if c.is::<TimesZConstraint<VU, E>>() {
+    } else if c.is::<TimesZConstraint<U, X>>() {
         "timesz"
     } else {
         "other"
@@ -142,7 +157,7 @@ pub fn constraint_json(c: &Rc<dyn Constraint<VU, E>>, names: &Names) -> Value {
     json!([tag, ops])
 }
 
-pub fn cstore_json(cs: &ConstraintStore<VU, E>, names: &Names) -> Vec<Value> {
+pub fn cstore_json<U: User, X: Engine<U>>(cs: &ConstraintStore<U, X>, names: &Names) -> Vec<Value> {
     sorted(cs.iter().map(|c| constraint_json(c, names)).collect())
 }
 
@@ -181,7 +196,7 @@ pub fn store_json(state: &State<VU, E>, names: &Names) -> Value {
     })
 }
 
-pub fn answer_json(results: &Vec<LResult<VU, E>>, names: &Names) -> Value {
+pub fn answer_json<U: User, X: Engine<U>>(results: &Vec<LResult<U, X>>, names: &Names) -> Value {
     let q: Vec<Value> = results.iter().map(|r| term_json(&r.0, names)).collect();
     let cs: Vec<Value> = match results.first() {
         Some(r) => cstore_json(r.1.as_ref(), names),
